@@ -93,7 +93,8 @@ Definition xstep (g : genk) (x : xconn) (o : xop) : xconn * xout :=
     let x1 := match lookup id (tbl x) with
               | Some s' => if oneway then x else (clear_inflight x s') <| displaced := S (displaced x) |>
               | None => x end in
-    let e := mkXs id true false 0 0 (negb oneway) in
+    (* a one-way stream is destroyed as soon as its request is written (stream.go endStream), which the holder does at once *)
+    let e := mkXs id (negb oneway) false 0 0 (negb oneway) in
     (x1 <| ctr := c' |> <| nstreams := S s |> <| xst := upd (xst x1) s e |>
         <| tbl := if oneway then tbl x else (id, s) :: remove_key id (tbl x) |> <| wok := w |>, OId id)
   | XResponse id =>
